@@ -29,7 +29,7 @@ type c08Gen struct {
 }
 
 type c08Act struct {
-	K     string `json:"k"` // type bs clear query sort exclude xmulti select nth reload reloadsync disable enable togglesearch x+ts s+ts n+ts checkpoint
+	K     string `json:"k"` // type bs clear query sort exclude xmulti select nth reload reloadsync disable enable togglesearch x+ts s+ts n+ts checkpoint search tsearch tquery bsput
 	S     string `json:"s,omitempty"`
 	Gen   int    `json:"gen,omitempty"`
 	Pause int    `json:"pause"` // ms slept after the action
@@ -104,6 +104,10 @@ type c08Run struct {
 	fail       bool
 	waited     bool
 	missed     bool // a timing window of an xstale/xfresh action was missed: the exclusion is not known exactly
+	// search(X) / transform-search(X): the string searched for instead of the query line (c08search.go)
+	qhist   []Val    // history of query-line actions for the spec function (op 804)
+	effHist []string // the queries that were in effect earlier in this session, oldest first
+	nfile   int
 }
 
 func (r *c08Run) disagree(kind, name string, impl, expect interface{}) {
@@ -280,8 +284,8 @@ func (r *c08Run) expect() (*c08Expect, error) {
 	mDeny, mCount := obs.L[5].IntList(), int(obs.L[6].I)
 	shown := obs.L[8].L
 	mStarted := int(obs.L[9].I)
-	e.query = r.query
-	if r.paused {
+	e.query = r.eff()
+	if r.paused && !r.overridden() {
 		e.query = mEffq // while search is disabled the query in effect is the one of the last search (model)
 	}
 	bad := func(what string, impl, model interface{}) {
@@ -293,8 +297,10 @@ func (r *c08Run) expect() (*c08Expect, error) {
 	if obs.L[0].I != 1 {
 		bad("model not quiescent after drain", "", obs.String())
 	}
-	if mInput != r.query {
-		bad("query line", r.query, mInput)
+	if mInput != r.eff() {
+		// the model's t_input is what Terminal.Input() hands to the coordinator: the search()/transform-search()
+		// string while one is in force (spec: CoordSpec.q_eff), the query line otherwise
+		bad("query line / search string", r.eff(), mInput)
 	}
 	if mSort != r.sort {
 		bad("sort", r.sort, mSort)
@@ -431,6 +437,9 @@ func (r *c08Run) converge(what string) bool {
 		exp = map[string]interface{}{"when": what, "generation": e.gen, "query_line": r.query, "query_in_effect": e.query, "sort": e.sort,
 			"nth": c08Nths[e.nth], "excluded": e.deny, "total": e.total, "matches": len(e.list), "first": head, "model": e.modelMsg}
 	}
+	if e != nil && r.olderQueryShown(e, exp) {
+		return false
+	}
 	if foreign != "" {
 		// still so at the last poll of the last attempt (30 s after loading ended): the list holds lines of an input
 		// that has been replaced
@@ -489,8 +498,7 @@ func (r *c08Run) do(a c08Act) bool {
 			return false
 		}
 		for _, ch := range a.S {
-			r.query += string(ch)
-			r.ui(L(I(0), Bytes(r.query)))
+			r.setQuery(r.query + string(ch))
 		}
 		// typed keys and POSTed actions travel on different channels: wait until the keys have been taken
 		want := r.query
@@ -502,22 +510,19 @@ func (r *c08Run) do(a c08Act) bool {
 		if !r.post("backward-delete-char") {
 			return false
 		}
-		if rs := []rune(r.query); len(rs) > 0 {
-			r.query = string(rs[:len(rs)-1])
-		}
-		r.ui(L(I(0), Bytes(r.query)))
+		r.setQuery(c08DropLast(r.query))
 	case "clear":
 		if !r.post("clear-query") {
 			return false
 		}
-		r.query = ""
-		r.ui(L(I(0), Bytes("")))
+		r.setQuery("")
 	case "query":
 		if !r.post("change-query(" + a.S + ")") {
 			return false
 		}
-		r.query = a.S
-		r.ui(L(I(0), Bytes(r.query)))
+		r.setQuery(a.S)
+	case "search", "tsearch", "tquery", "bsput":
+		return r.doSearchAct(a)
 	case "sort":
 		if !r.post("toggle-sort") {
 			return false
@@ -817,7 +822,7 @@ func c08RunCase(c *Ctx, cs *c08Case) {
 	nQ := 0
 	for _, a := range cs.Acts {
 		switch a.K {
-		case "type", "bs", "clear", "query":
+		case "type", "bs", "clear", "query", "tquery", "bsput":
 			nQ++
 		}
 	}
@@ -962,6 +967,8 @@ func c08GenCase(r *RNG, stream int) *c08Case {
 		}
 	}
 	switch stream {
+	case 6:
+		c08GenSearchStream(r, cs, add, pause, payload)
 	case 5:
 		n := Pick(r, []int{r.Range(1, 40), r.Range(41, 99), 100, r.Range(101, 600), 200, r.Range(601, 3000), 1000, r.Range(3001, 12000)})
 		cs.Gens = []c08Gen{{N: n}}
@@ -1213,7 +1220,7 @@ func c08Parallel(c *Ctx, cases []*c08Case, par int) {
 }
 
 func runC08(c *Ctx) {
-	c.Rep.Rule = "one case = one interactive session (pty + --listen): input of 50..200000 lines from a fast or slow writer (stdin, FZF_DEFAULT_COMMAND, start:reload), 3..20 actions (typing, deleting, clear-query, change-query, toggle-sort, exclude, exclude-multi, change-nth, reload, reload-sync, search on/off, action lists ending in toggle-search) with pauses of 0..50 ms, then quiescence; a stream of sessions replaces the input by one of the same (or nearly the same) number of lines and visits the earlier queries again; the list must equal a fresh fzf --filter as a sequence; non-trivial = converged, at least 3 actions and one query edit; distinct by JSON of the case"
+	c.Rep.Rule = "one case = one interactive session (pty + --listen): input of 50..200000 lines from a fast or slow writer (stdin, FZF_DEFAULT_COMMAND, start:reload), 3..20 actions (typing, deleting, clear-query, change-query, toggle-sort, exclude, exclude-multi, change-nth, reload, reload-sync, search on/off, action lists ending in toggle-search) with pauses of 0..50 ms, then quiescence; a stream of sessions replaces the input by one of the same (or nearly the same) number of lines and visits the earlier queries again; a stream of sessions runs search(X) / transform-search(X) and then replaces the query line within one action (change-query, transform-query, backward-delete-char+put, clear, typing) by a text of the same length, the same text or another one; the list must equal a fresh fzf --filter as a sequence; non-trivial = converged, at least 3 actions and one query edit; distinct by JSON of the case"
 	if c.Replay != "" {
 		var cs c08Case
 		b, err := os.ReadFile(c.Replay)
@@ -1251,6 +1258,10 @@ func runC08(c *Ctx) {
 	// after it, so that the cases of the other streams are the same as before for a given seed
 	for i, n5 := 0, c.N(48, 600); i < n5; i++ {
 		cases = append(cases, c08GenCase(c.Rng.Fork(), 5))
+	}
+	// stream 6 (search()/transform-search() strings and the query edits that drop or keep them), likewise on top
+	for i, n6 := 0, c.N(40, 500); i < n6; i++ {
+		cases = append(cases, c08GenCase(c.Rng.Fork(), 6))
 	}
 	c08Parallel(c, append(corpus, cases...), 10)
 	c.Rep.Extra["sessions"] = len(corpus) + len(cases)
